@@ -7,6 +7,10 @@ import time
 import z3
 
 Z3_TIMEOUT_MS = int(os.environ.get("PYVC_Z3_TIMEOUT_MS", "8000"))
+try:
+    z3.set_param("memory_max_size", int(os.environ.get("PYVC_Z3_MEMORY_MB", "6000")))
+except Exception:
+    pass
 CLI_TIMEOUT_S = int(os.environ.get("PYVC_CLI_TIMEOUT_S", "8"))
 
 
